@@ -225,7 +225,20 @@ def extract(repo):
             r"if\(\s*strchr\(\s*delimiterList,\s*c\s*\)\s*!=\s*NULL\s*\)"]
     guarded = [r"if\(\s*!IsDelimiter\(\s*delimiterList,\s*c\s*\)\s*\)",
                r"for\(\s*in\.get\(\s*c\s*\);\s*in\s*&&\s*!IsDelimiter\(\s*delimiterList,\s*c\s*\);\s*in\.get\(\s*c\s*\)\s*\)",
-               r"if\(\s*IsDelimiter\(\s*delimiterList,\s*c\s*\)\s*\)"]
+               r"if\(\s*(?:!endOfRecord\s*&&\s*)?IsDelimiter\(\s*delimiterList,\s*c\s*\)\s*\)"]
+    # the recovery loop: plain (`skipBuf += c;`) or ending at the record's `;` outside a string literal (fixes/C05-15)
+    lm = re.search(r"for\(\s*in\.get\(\s*c\s*\);[^)]*\)\s*;[^{]*\{(.*?)\}\s*if\(\s*(!endOfRecord\s*&&\s*)?(?:IsDelimiter\(|strchr\()", cri, re.S) \
+        or re.search(r"for\(\s*in\.get\(\s*c\s*\);.*?in\.get\(\s*c\s*\)\s*\)\s*\{(.*)\}\s*if\(\s*(!endOfRecord\s*&&\s*)?(?:IsDelimiter\(|strchr\()", cri, re.S)
+    if not lm:
+        raise ValueError("CheckRemainingInput: recovery loop not found")
+    lbody = re.sub(r"\s+", "", lm.group(1))
+    if lbody == "skipBuf+=c;" and not lm.group(2):
+        cri_semicolon = False
+    elif lbody == "if(c=='\\''){inString=!inString;}elseif(c==';'&&!inString){in.putback(c);endOfRecord=true;break;}skipBuf+=c;" and lm.group(2) \
+            and re.search(r"bool\s+inString\s*=\s*false\s*,\s*endOfRecord\s*=\s*false\s*;", cri):
+        cri_semicolon = True
+    else:
+        raise ValueError(f"CheckRemainingInput: unknown recovery loop body: {lbody[:160]!r}")
     if all(re.search(p, cri) for p in bare) and "IsDelimiter" not in cri:
         nul_is_delim = True          # strchr() matches the terminating NUL of the list
     elif all(re.search(p, cri) for p in guarded) and "strchr" not in cri:
@@ -294,7 +307,14 @@ def extract(repo):
     if not m:
         raise ValueError("REAL_NUM_PRECISION not found")
     prec = int(m.group(1))
-    if not re.search(r"sprintf\(\s*rbuf,\s*\"%\.\*G\",\s*\(\s*int\s*\)\s*RealNumPrecision,\s*val\s*\)", rf):
+    wrb = _strip(_body(rf, r"std::string\s+WriteReal\(\s*SDAI_Real\s+val\s*\)", "WriteReal"))
+    if re.search(r"sprintf\(\s*rbuf,\s*\"%\.\*G\",\s*\(\s*int\s*\)\s*RealNumPrecision,\s*val\s*\)\s*;", wrb) and "strtod" not in wrb:
+        wr_round_trips = False
+    elif re.search(r"int\s+prec\s*=\s*\(\s*int\s*\)\s*RealNumPrecision\s*;\s*sprintf\(\s*rbuf,\s*\"%\.\*G\",\s*prec,\s*val\s*\)\s*;\s*"
+                   r"while\(\s*prec\s*<\s*17\s*&&\s*strtod\(\s*rbuf,\s*0\s*\)\s*!=\s*val\s*\)\s*\{\s*prec\+\+\s*;\s*"
+                   r"sprintf\(\s*rbuf,\s*\"%\.\*G\",\s*prec,\s*val\s*\)\s*;\s*\}", wrb) and prec == 15:
+        wr_round_trips = True       # 15, then 16, then 17 significant digits until the text converts back (fixes/C09-10)
+    else:
         raise ValueError("WriteReal: format changed")
     if not re.search(r"typedef\s+long\s+SDAI_Integer\s*;", sh) or not re.search(r"typedef\s+double\s+SDAI_Real\s*;", sh):
         raise ValueError("SDAI_Integer / SDAI_Real typedefs changed")
@@ -340,13 +360,16 @@ def lexCfg : StepModel.P21.LexCfg :=
     asStrUsesWriteReal := {_b(asstr_wr)}, criSkipsComments := {_b(cri_comments)}, realBuf := {real_buf}, realPrecision := {prec},
     nulIsDelim := {_b(nul_is_delim)}, realFailUnlessBlank := {_b(real_unless_blank)}, refReportsNonRef := {_b(ref_reports)},
     intNullReported := {_b(null_flags["ReadInteger"])}, realNullReported := {_b(null_flags["ReadReal"])},
-    numberNullReported := {_b(null_flags["ReadNumber"])} }}
+    numberNullReported := {_b(null_flags["ReadNumber"])}, criStopsAtSemicolon := {_b(cri_semicolon)} }}
 
 /-- `SDAI_LOGICAL::element_at(0..3)` and `SDAI_BOOLEAN::element_at(0..1)` -/
 def logicalTable : List (List Nat) := [{", ".join(lst(x) for x in log_tbl)}]
 def booleanTable : List (List Nat) := [{", ".join(lst(x) for x in bool_tbl)}]
 /-- the delimiter list STEPattribute::STEPread passes to every scanner -/
 def attrDelims : List Nat := {lst(",)")}
+
+/-- `WriteReal` raises the precision from 15 to 16 and 17 significant digits until the text converts back to the value -/
+def writeRealRoundTrips : Bool := {_b(wr_round_trips)}
 /-- Severity values used by the scanners -/
 def sevBug : Int := {sev["SEVERITY_BUG"]}
 def sevInputError : Int := {sev["SEVERITY_INPUT_ERROR"]}
